@@ -1,7 +1,9 @@
 --------------------------------- MODULE Cow ---------------------------------
 (* Implementation-shaped model of mutable.CopyOnWriteMap at the granularity of its yield points
    (first line of load() and of copyOnWrite(), both outside the lock):
-     - every read (Get/Size/Iterator) is one block: an atomic Load of the snapshot;
+     - every read (Get/Size/Iterator) is one block: an atomic Load of the snapshot - except on a
+       zero-value map, where load() saw nil and parks in front of lock.Lock() (block "bi": lock,
+       re-read, store an empty map if still nil);
      - every write (Updated/Removed/UpdatedWith) is one block: lock; derive; Store; unlock;
      - ComputeIf is three blocks:  read ; compute + locked write ; (read again).
    ComputeMode = "unlocked" is check-then-act as first found (unconditional store, result re-read
@@ -11,17 +13,19 @@ EXTENDS Integers, Sequences, FiniteSets, TLC
 
 CONSTANTS Threads, Keys, KeyOrder,
           ProgSpace,      \* set of programs: thread -> sequence of operation records (fields as CowAbs!NoCall)
-          ComputeMode     \* "unlocked" | "recheck"
+          ComputeMode,    \* "unlocked" | "recheck"
+          InitMode        \* lazy initialisation in load(): "recheck" (re-read under the lock) | "norecheck"
 
 VARIABLES Prog,    \* the program being executed (chosen initially, never changes)
           snapM,   \* the published snapshot
           ip,      \* thread -> index of the current operation
-          st,      \* thread -> "idle" | "b1" | "b2" | "b3" | "ret"
+          st,      \* thread -> "idle" | "b1" | "bi" | "b2" | "b3" | "ret"
           res,     \* thread -> result of the current operation once known
           tmp,     \* thread -> value computed by the user function
+          inited,  \* the atomic value holds a map (false: still nil, zero-value CopyOnWriteMap)
           act
-vars == <<Prog, snapM, ip, st, res, tmp, act>>
-View == <<Prog, snapM, ip, st, res, tmp>>
+vars == <<Prog, snapM, ip, st, res, tmp, inited, act>>
+View == <<Prog, snapM, ip, st, res, tmp, inited>>
 
 A == INSTANCE CowAbs WITH m <- snapM, pend <- [t \in Threads |-> 0], lin <- [t \in Threads |-> 0]
 Effect(c, mm) == A!Effect(c, mm)
@@ -33,48 +37,57 @@ Act(a, t) == act' = [a |-> a, t |-> t]
 
 Init == /\ Prog \in ProgSpace
         /\ snapM = [k \in Keys |-> 0] /\ ip = [t \in Threads |-> 1] /\ st = [t \in Threads |-> "idle"]
-        /\ res = [t \in Threads |-> "none"] /\ tmp = [t \in Threads |-> 0] /\ act = [a |-> "init", t |-> "-"]
+        /\ res = [t \in Threads |-> "none"] /\ tmp = [t \in Threads |-> 0] /\ inited = FALSE /\ act = [a |-> "init", t |-> "-"]
 
 \* the call begins: up to the first yield point
 CallOp(t) ==
   /\ ~Finished(t) /\ st[t] = "idle"
   /\ st' = [st EXCEPT ![t] = "b1"] /\ Act("Call", t)
-  /\ UNCHANGED <<Prog, snapM, ip, res, tmp>>
+  /\ UNCHANGED <<Prog, snapM, ip, res, tmp, inited>>
 
 IsCompute(c) == c.op \in {"cia", "cif"}
+ReadsFirst(c) == c.op \in {"get", "size", "iter", "cia", "cif"}     \* begins with r.load()
+EmptyM == [k \in Keys |-> 0]
+
+\* what one block does, as a function of the stage and of the snapshot cur it works on:
+\* new snapshot, result so far, next stage
+Outcome(c, stage, cur) ==
+  IF ~IsCompute(c)
+  THEN LET e == Effect(c, cur) IN [m |-> e.m, res |-> e.res, st |-> "ret"]
+  ELSE CASE stage = "b1" ->      \* ret := r.Get(k).FilterNot(pred)
+              IF cur[c.k] # 0 /\ ~Pred(c.fn, cur[c.k])
+              THEN [m |-> cur, res |-> ToString(cur[c.k]), st |-> "ret"]
+              ELSE [m |-> cur, res |-> "none", st |-> "b2"]
+         [] stage = "b2" ->      \* nv := f(); r.copyOnWrite(...)
+              IF ComputeMode = "recheck" /\ cur[c.k] # 0 /\ ~Pred(c.fn, cur[c.k])
+              THEN [m |-> cur, res |-> ToString(cur[c.k]), st |-> "ret"]
+              ELSE [m |-> [cur EXCEPT ![c.k] = c.v], res |-> ToString(c.v),
+                    st |-> IF ComputeMode = "recheck" THEN "ret" ELSE "b3"]
+         [] stage = "b3" ->      \* return r.Get(k).Get()       (panics when the key has gone)
+              [m |-> cur, res |-> IF cur[c.k] = 0 THEN "panic" ELSE ToString(cur[c.k]), st |-> "ret"]
 
 \* one block of code between two yield points
 Block(t) ==
-  /\ ~Finished(t) /\ st[t] \in {"b1", "b2", "b3"}
-  /\ Act("Block", t) /\ UNCHANGED <<Prog, ip>>
+  /\ ~Finished(t) /\ st[t] \in {"b1", "bi", "b2", "b3"}
+  /\ Act("Block", t) /\ UNCHANGED <<Prog, ip, tmp>>
   /\ LET c == Cur(t) IN
-     IF ~IsCompute(c)
-     THEN LET e == Effect(c, snapM) IN
-          /\ snapM' = e.m /\ res' = [res EXCEPT ![t] = e.res]
-          /\ st' = [st EXCEPT ![t] = "ret"] /\ UNCHANGED tmp
-     ELSE CASE st[t] = "b1" ->      \* ret := r.Get(k).FilterNot(pred)
-                 IF snapM[c.k] # 0 /\ ~Pred(c.fn, snapM[c.k])
-                 THEN /\ res' = [res EXCEPT ![t] = ToString(snapM[c.k])]
-                      /\ st' = [st EXCEPT ![t] = "ret"] /\ UNCHANGED <<snapM, tmp>>
-                 ELSE /\ st' = [st EXCEPT ![t] = "b2"] /\ UNCHANGED <<snapM, res, tmp>>
-            [] st[t] = "b2" ->      \* nv := f(); r.copyOnWrite(...)
-                 IF ComputeMode = "recheck" /\ snapM[c.k] # 0 /\ ~Pred(c.fn, snapM[c.k])
-                 THEN /\ res' = [res EXCEPT ![t] = ToString(snapM[c.k])]
-                      /\ st' = [st EXCEPT ![t] = "ret"] /\ UNCHANGED <<snapM, tmp>>
-                 ELSE /\ snapM' = [snapM EXCEPT ![c.k] = c.v]
-                      /\ IF ComputeMode = "recheck"
-                         THEN res' = [res EXCEPT ![t] = ToString(c.v)] /\ st' = [st EXCEPT ![t] = "ret"]
-                         ELSE res' = [res EXCEPT ![t] = ToString(c.v)] /\ st' = [st EXCEPT ![t] = "b3"]
-                      /\ UNCHANGED tmp
-            [] st[t] = "b3" ->      \* return r.Get(k).Get()       (panics when the key has gone)
-                 /\ res' = [res EXCEPT ![t] = IF snapM[c.k] = 0 THEN "panic" ELSE ToString(snapM[c.k])]
-                 /\ st' = [st EXCEPT ![t] = "ret"] /\ UNCHANGED <<snapM, tmp>>
+     IF st[t] = "b1" /\ ReadsFirst(c) /\ ~inited
+     THEN \* load(): the atomic Load returned nil; the thread parks in front of lock.Lock()
+          /\ st' = [st EXCEPT ![t] = "bi"] /\ UNCHANGED <<snapM, res, inited>>
+     ELSE LET stage == IF st[t] = "bi" THEN "b1" ELSE st[t]
+              \* lazy initialisation under the lock: store an empty map unless somebody else has
+              cur == IF st[t] = "bi" /\ (InitMode = "norecheck" \/ ~inited) THEN EmptyM ELSE snapM
+              o == Outcome(c, stage, cur)
+          IN /\ snapM' = o.m
+             /\ res' = [res EXCEPT ![t] = o.res]
+             /\ st' = [st EXCEPT ![t] = o.st]
+             /\ inited' = (inited \/ st[t] = "bi" \/ o.m # snapM \/ ~ReadsFirst(c) \/ stage = "b2")
 
 RetOp(t) ==
   /\ ~Finished(t) /\ st[t] = "ret"
   /\ st' = [st EXCEPT ![t] = "idle"] /\ ip' = [ip EXCEPT ![t] = @ + 1]
   /\ res' = [res EXCEPT ![t] = "none"] /\ Act("Ret", t)
-  /\ UNCHANGED <<Prog, snapM, tmp>>
+  /\ UNCHANGED <<Prog, snapM, tmp, inited>>
 
 Next == \E t \in Threads : CallOp(t) \/ Block(t) \/ RetOp(t)
 Spec == Init /\ [][Next]_vars
